@@ -429,6 +429,10 @@ struct C04 : Property
 		if (!g_alloc.live.empty())
 			ctx.fail("C04:leak@" + g_alloc.first_live_site(), "after json_tokener_free %zu allocation(s) made by the session remain:%s", g_alloc.live.size(),
 			         g_alloc.describe_live().c_str());
+		// locale objects are resources the calls create too (glibc allocates them internally, so the allocator seam does not see
+		// them).  One object kept alive would still be a legitimate cache; a number that grows with the calls is a leak.
+		if (g_loc.live_created.size() > 1)
+			ctx.fail("C04:leak@locale-objects", "after json_tokener_free %zu locale objects created inside parse calls of this session are still alive", g_loc.live_created.size());
 	}
 };
 REGISTER_PROPERTY(C04)
